@@ -70,6 +70,16 @@ def case_merge(rnd):
         dsets.append({'ids': s, 'fields': fields})
     rec = {'kind': 'merge', 'datasets': dsets, 'common': common}
     layers = [source(d['ids'], d['fields']) for d in dsets]
+    # the dataset objects may have been used before, as the head of a pipeline whose tail has a meta field of its own
+    rec['reused'] = []
+    for k, l in enumerate(layers):
+        if rnd.random() < 0.3:
+            try:
+                from connectome import Chain
+                Chain(l, P.build_layer({'t': 'transform', 'fields': {'n_items': ['s099', []]}, 'params': {}, 'inherit': True, 'meta': ['n_items']}, []))
+                rec['reused'].append(k)
+            except BaseException:  # noqa
+                pass
     try:
         m = Merge(*layers)
     except BaseException as e:  # noqa
@@ -88,6 +98,8 @@ def case_merge(rnd):
                 r['hash_equals_owner'] = digest(g.get_hash(i)[0]) == digest(go.get_hash(i)[0])
             rows.append({'id': i, 'field': f, 'res': r})
     rec['rows'] = rows
+    # the key field: the id itself for the ids of the merged dataset, rejected otherwise
+    rec['id_rows'] = [{'id': i, 'res': {k: v for k, v in call(m.id, i).items() if k != 'ran'}} for i in sorted(set(sum(sets, [])) | {'zz'})]
     return rec
 
 
@@ -101,13 +113,20 @@ def case_filter(rnd):
     # predicates see field VALUES; the value of image for id i is the string $s001('i')
     truth_b = {i: rnd.random() < 0.5 for i in ALL + ['zz']}
     # the value of image in a second dataset (used below) is $s005('i'): the predicate then follows another table
-    sympool.TABLE['t001'] = lambda image: (truth_b if image.startswith('$s005(') else truth)[image.split("'")[1]]
+    seen_results = [0]
+
+    def as_result(b):
+        # a predicate may return any object: what counts is its truth value
+        seen_results[0] += 1
+        return (TRUTHY if b else FALSY)[seen_results[0] % 5]
+    TRUTHY, FALSY = [True, 1, 2, 'yes', [0]], [False, 0, '', None, []]
+    sympool.TABLE['t001'] = lambda image: as_result((truth_b if image.startswith('$s005(') else truth)[image.split("'")[1]])
     def both(mask, image):
         # the predicate is bound to the fields by argument NAME: each argument must carry the value of its own field
         assert image.startswith('$s001(') and mask.startswith('$s002('), (mask, image)
         return truth[image.split("'")[1]] and truth2[mask.split("'")[1]]
     sympool.TABLE['t002'] = both
-    sympool.TABLE['t003'] = lambda id: truth[id]
+    sympool.TABLE['t003'] = lambda id: as_result(truth[id])
     sympool.TABLE['t004'] = lambda mask: truth2[mask.split("'")[1]]
     src = source(ids, fields)
     rec = {'kind': 'filter', 'ids': ids, 'which': which, 'truth': truth, 'truth2': truth2}
@@ -172,6 +191,16 @@ def case_filter(rnd):
             same_hash = digest(chain._compile(f).get_hash(i)[0]) == digest(src._compile(f).get_hash(i)[0])
             rows.append({'id': i, 'field': f, 'same_value': a.get('val') == b.get('val') and 'val' in a, 'same_hash': same_hash})
     rec['rows'] = rows
+    # CheckIds in front of the filter changes neither the kept ids nor their hash
+    try:
+        with_chk = src >> CheckIds()
+        for b in [P.build_layer(d, []) for d in layers] if which not in ('keep', 'drop') else []:
+            with_chk = with_chk >> b
+        if which not in ('keep', 'drop'):
+            rec['checkids_before_filter'] = {'same_ids': list(with_chk.ids) == rec['new_ids'],
+                                             'same_hash': digest(with_chk._compile('ids').get_hash()[0]) == digest(chain._compile('ids').get_hash()[0])}
+    except BaseException as e:  # noqa
+        rec['checkids_before_filter'] = {'exc': cls_name(e)}
     # CheckIds on top: foreign ids are rejected, the others untouched
     chk = chain >> CheckIds()
     crow = []
@@ -193,6 +222,9 @@ def case_join(rnd):
     nkeys = rnd.choice([1, 1, 2])
     kvals = ['k1', 'k2', 'k3', 'k4']
     dup = rnd.random() < 0.2
+    int_keys = nkeys == 1 and not dup and rnd.random() < 0.2
+    if int_keys:
+        kvals = [2, 10, 33, 100, -5]          # keys whose order is not the order of their str()
     def side(prefix, n):
         ids = [f'{prefix}{i}' for i in range(n)]
         if ids and rnd.random() < 0.3:
@@ -225,7 +257,12 @@ def case_join(rnd):
         items.append((vname, Function(P.sym(vsym), 'i')))
         return SourceBase(items)
     left, right = mk(lids, 0, 's020', 'lval'), mk(rids, 1, 's021', 'rval')
-    rec = {'kind': 'join', 'how': how, 'on': on, 'left': {'ids': lids, 'keys': lkeys}, 'right': {'ids': rids, 'keys': rkeys}}
+    opt_left = how == 'inner' and rnd.random() < 0.4
+    if opt_left:
+        # the left pipeline has an optional field whose input nothing provides: it is left out quietly, with or without the Join
+        from connectome import Transform, optional
+        left = left >> Transform(mask=optional(Function(P.sym('s022'), 'mask')), __inherit__=True)
+    rec = {'kind': 'join', 'how': how, 'on': on, 'left': {'ids': lids, 'keys': lkeys}, 'right': {'ids': rids, 'keys': rkeys}, 'int_keys': int_keys, 'optional_left': opt_left}
     try:
         j = Join(left, right, on, how=how)
         rec['ids'] = list(j.ids)
@@ -233,6 +270,8 @@ def case_join(rnd):
         rec['build_exc'] = cls_name(e)
         return rec
     rows = []
+    if int_keys:
+        return rec          # compared with a direct computation of the ids (the model orders strings)
     probe = sorted(set(rec['ids']) | {'zz'} | {(_k(v)) for v in list(lkeys.values()) + list(rkeys.values())})
     for i in probe:
         row = {'id': i}
@@ -292,6 +331,7 @@ def case_group(rnd):
     for k in rec['new_ids'] + ['zz']:
         rows.append({'key': k, 'image': call(layer.image, k)})
     rec['rows'] = rows
+    rec['ids_after_unknown_key'] = list(layer.ids)        # asking for an unknown group changes nothing
     before = dict(counts)
     list(layer.ids)
     for k in rec['new_ids'][:3]:
@@ -318,14 +358,25 @@ def case_split(rnd):
         return parts[id]
     sympool.TABLE['t030'] = split_fn
 
-    class Sp(Split):
-        def __split__(id):
-            return sympool.t030(id)
+    two = rnd.random() < 0.5
+    rec_two = two
+    if two:
+        class Sp(Split):
+            def __split__(image, id):          # the parameters are bound by NAME, whatever their order
+                assert image.startswith('$s041(') and not id.startswith('$'), (image, id)
+                return sympool.t030(id)
 
-        def image(image, __part__):
-            return sympool.s040(image, __part__)
+            def image(image, __part__):
+                return sympool.s040(image, __part__)
+    else:
+        class Sp(Split):
+            def __split__(id):
+                return sympool.t030(id)
+
+            def image(image, __part__):
+                return sympool.s040(image, __part__)
     src = source(ids, {'image': 's041'})
-    rec = {'kind': 'split', 'ids': ids, 'parts': {i: parts[i] for i in ids}}
+    rec = {'kind': 'split', 'ids': ids, 'parts': {i: parts[i] for i in ids}, 'two_parameters': rec_two}
     try:
         layer = src >> Sp()
         rec['new_ids'] = list(layer.ids)
